@@ -23,7 +23,7 @@ import (
 
 func init() {
 	registry["C17"] = func(rep *core.Report) {
-		shards := []string{"seq", "2x1", "2x2", "3x1", "2x(2,1)", "blocked-key", "expiry"}
+		shards := []string{"seq", "2x1", "2x2", "3x1", "2x(2,1)", "blocked-key", "expiry", "expiry-janitor"}
 		rep.Set("engine", "vrt+explore: every interleaving of the Memoize callers (scheduling points inside the cache's RWMutex and singleflight's Mutex/WaitGroup), callback latency = 0/1/2 scheduling points, callback outcome = Choose(value|error)")
 		if !runWorkers(rep, "C17worker", shards, nil) {
 			fmt.Fprintln(os.Stderr, "C17: worker failure")
@@ -103,9 +103,12 @@ func c17worker(arg string) {
 	case "blocked-key":
 		add([]string{"p"}, []string{"p"}, []string{"Q-blocks"})
 		add([]string{"p", "p"}, []string{"Q-blocks"})
-	case "expiry":
+	case "expiry", "expiry-janitor":
 		add([]string{"p", "p"}, []string{"p"})
 		add([]string{"p", "p", "p"})
+		if arg == "expiry" {
+			add([]string{"p", "p", "p", "p"})
+		}
 	}
 	latencies := []int{0, 1, 2}
 	if arg == "2x2" || arg == "3x1" {
@@ -113,7 +116,10 @@ func c17worker(arg string) {
 	}
 	for _, prog := range progs {
 		for _, lat := range latencies {
-			c17scenario(c, arg, prog, lat, arg == "expiry")
+			if arg == "expiry-janitor" && lat == 2 {
+				continue
+			}
+			c17scenario(c, arg, prog, lat, arg == "expiry" || arg == "expiry-janitor")
 		}
 	}
 	c.st.States = len(c.states)
@@ -129,8 +135,12 @@ func c17scenario(c *c20ctx, fam string, prog [][]string, lat int, expiry bool) {
 		th = append(th, strings.Join(t, ";"))
 	}
 	name := fmt.Sprintf("Memoize(%s; latency=%d; expiry=%t)", strings.Join(th, " ‖ "), lat, expiry)
+	janitor := fam == "expiry-janitor"
+	if janitor {
+		name = fmt.Sprintf("Memoize(%s; latency=%d; expiry=3, cleanup-interval=2)", strings.Join(th, " ‖ "), lat)
+	}
 	bound := 0
-	if len(prog) >= 3 || fam == "2x2" {
+	if len(prog) >= 3 || fam == "2x2" || janitor {
 		bound = 2
 		if thorough {
 			bound = 3
@@ -153,7 +163,13 @@ func c17scenario(c *c20ctx, fam string, prog [][]string, lat int, expiry bool) {
 		if expiry {
 			exp = 3 * unit
 		}
-		m := gogu.NewMemoizer[string, int](exp, 0)
+		n0 := vrt.ThreadCount()
+		cleanup := time.Duration(0)
+		if janitor {
+			cleanup = 2 * unit // the cache's own cleanup goroutine sweeps while the callers run
+		}
+		m := gogu.NewMemoizer[string, int](exp, cleanup)
+		vrt.MarkSpawnedSinceDaemon(n0)
 		inflight := map[string]int{}
 		count := map[string]int{}
 		var wg sync.WaitGroup
@@ -268,22 +284,33 @@ func c17scenario(c *c20ctx, fam string, prog [][]string, lat int, expiry bool) {
 				if prev == cl || prev.key != cl.key || prev.err != nil || !prev.hasVal || !(prev.ret < cl.inv) {
 					continue
 				}
-				// the entry cannot have expired if the call returned less than the lifetime after the
-				// earliest instant at which anything can have been stored for this key
+				// When prev returned, the key held a live entry (prev was served from it, or its flight had
+				// just stored one, or the store was refused because a live one existed). That entry was
+				// stored by a successful execution e that started before prev returned, so it lives at
+				// least until e.tStart + lifetime, and Memoize only stores through Set, which never
+				// replaces a live entry. Executions whose entry had certainly expired before prev began
+				// cannot be that e. The call is judged only if it ends before the earliest possible expiry.
 				stillCached := !expiry
 				if expiry {
-					first := int64(-1)
+					earliest := int64(-1)
 					for _, e := range execs {
-						if e.key == cl.key && e.ok && (first < 0 || e.tStart < first) {
-							first = e.tStart
+						if e.key != cl.key || !e.ok || e.start > prev.ret {
+							continue
+						}
+						stored := e.tStart // latest instant at which e's flight can have stored: its Memoize call's return
+						for _, c0 := range calls {
+							if c0.thread == e.thread && c0.inv < e.start && e.start < c0.ret {
+								stored = c0.tRet
+							}
+						}
+						if prev.tInv > stored+3 {
+							continue // certainly expired before prev began
+						}
+						if earliest < 0 || e.tStart+3 < earliest {
+							earliest = e.tStart + 3
 						}
 					}
-					stillCached = first >= 0 && cl.tRet < first+3
-					for _, e := range execs { // more than one successful execution: which one is stored depends on expiry; do not judge
-						if e.key == cl.key && e.ok && e.tStart != first {
-							stillCached = false
-						}
-					}
+					stillCached = earliest >= 0 && cl.tRet < earliest
 				}
 				if !stillCached {
 					continue
@@ -296,6 +323,7 @@ func c17scenario(c *c20ctx, fam string, prog [][]string, lat int, expiry bool) {
 				if cl.err != nil {
 					return "Memoize/cached-value-not-served", fmt.Sprintf("call %s started after value %d had been returned, but got error %v", cl.key, prev.val, cl.err)
 				}
+
 				if !expiry {
 					postCache[cl.key] = append(postCache[cl.key], cl)
 				}
